@@ -120,7 +120,9 @@ class C04(Suite):
                 first = len(reqs)
                 if t["kind"] == "read":
                     off, guard = 0, 0
-                    while guard < 4 * L + 8:
+                    # a correct transfer needs ceil(n / elements-per-fragment) requests; twice that and some is given up on
+                    most = 2 * -(-t["n"] // max(1, c["budget"] // siz)) + 8
+                    while guard < most:
                         guard += 1
                         r = {"op": "rf", "path": [["s", "T"], ["e", t["idx"]]], "n": t["n"], "off": off}
                         if t.get("elide"):
